@@ -1038,6 +1038,70 @@ impl TokenizedBuffer {
     }
 }
 
+/// Verification hooks: raw access to otherwise private parts of the buffer types
+#[cfg(sas_lexer_verif)]
+#[allow(missing_docs, clippy::all, clippy::pedantic)]
+mod verif_hooks {
+    use super::{
+        ByteOffset, CharOffset, LineIdx, LineInfo, Payload, TokenChannel, TokenIdx, TokenInfo,
+        TokenType, TokenizedBuffer,
+    };
+
+    impl TokenIdx {
+        #[must_use]
+        pub fn verif_new(val: u32) -> Self {
+            TokenIdx(val)
+        }
+    }
+
+    impl LineIdx {
+        pub(crate) fn verif_get(self) -> u32 {
+            self.0
+        }
+    }
+
+    impl TokenizedBuffer {
+        /// (byte offset, char start) per line
+        #[must_use]
+        pub fn verif_line_infos(&self) -> Vec<(u32, u32)> {
+            self.line_infos
+                .iter()
+                .map(|l| (l.byte_offset.get(), l.start.get()))
+                .collect()
+        }
+
+        /// Token tuple = channel, type, byte, char start, zero-based line index, payload
+        #[must_use]
+        pub fn verif_from_parts(
+            lines: Vec<(u32, u32)>,
+            toks: Vec<(TokenChannel, TokenType, u32, u32, u32, Payload)>,
+            lits: String,
+        ) -> TokenizedBuffer {
+            TokenizedBuffer {
+                line_infos: lines
+                    .into_iter()
+                    .map(|(b, c)| LineInfo {
+                        byte_offset: ByteOffset::new(b),
+                        start: CharOffset::new(c),
+                    })
+                    .collect(),
+                token_infos: toks
+                    .into_iter()
+                    .map(|(channel, token_type, b, c, l, payload)| TokenInfo {
+                        channel,
+                        token_type,
+                        byte_offset: ByteOffset::new(b),
+                        start: CharOffset::new(c),
+                        line: LineIdx(l),
+                        payload,
+                    })
+                    .collect(),
+                string_literals_buffer: lits,
+            }
+        }
+    }
+}
+
 #[cfg(test)]
 mod tests {
     use super::*;
